@@ -7,6 +7,27 @@ from props import c09sess as SS
 
 V_LOG = [0, -1, -2]        # what P / Q return when the model is declared log=True: log-likelihoods, i.e. costs 0, 1, 2
 V_LIK = [0, 0.5, 1]        # likelihoods
+V_INF = [0, -1, "-inf"]    # log-likelihoods with IMPOSSIBLE entries (the logarithm of a zero probability): costs 0, 1, +inf
+SENTINEL = 1e300           # best_val's start value in HMM.estimate
+SPECIAL = {"inf": float("inf"), "-inf": float("-inf"), "nan": float("nan")}
+
+
+def num(v):
+    """table entries are JSON-safe: the non-finite doubles are written "inf" / "-inf" / "nan" in a case"""
+    return SPECIAL[v] if isinstance(v, str) else v
+
+
+def nums(t):
+    return [nums(x) for x in t] if isinstance(t, list) else num(t)
+
+
+def tok(v):
+    """the inverse of num"""
+    if isinstance(v, float) and v != v:
+        return "nan"
+    if isinstance(v, float) and math.isinf(v):
+        return "inf" if v > 0 else "-inf"
+    return v
 BLOCK = 243                # configurations per enumerated block (3^5)
 TOL = 1e-9
 
@@ -142,11 +163,21 @@ class P(Prop):
         (H, "TV.Hmm.estimate_last_empty", "an empty candidate list at the last epoch: ValueError after the two features were created, nothing decoded, other features unchanged"),
         ("TracklibVerif.Lemmas.ViterbiTable", "TV.Viterbi.decode_eq", "refinement: the table-building decode equals the function-style back-pointer path from a minimal last state with the function-style values"),
         ("TracklibVerif.Lemmas.ViterbiTable", "TV.Viterbi.sentinel_of_paths", "if every candidate sequence's running cost stays below 1e300 then every value compared with best_val is below it"),
+        (M, "TV.C09.decoded_optimal_feasible", "T15: T1-T3 with NO hypothesis on running costs: costs that never decrease a value (non-negative, +inf = impossible allowed) and SOME candidate sequence below the sentinel: candidates assigned, hmm_cost at every epoch is the decoded prefix cost, the decoded sequence costs no more than ANY candidate sequence and is below the sentinel"),
+        (M, "TV.C09.decoded_infeasible", "T16: every candidate sequence costs at least the sentinel (no possible sequence): candidates are still assigned, the cost recorded at the last epoch is >= 1e300 (1e300 + p, not +inf)"),
+        (M, "TV.C09.sentinel_cell", "T17: a candidate none of whose predecessors offers a value below 1e300 gets back-pointer 0 and value 1e300 + p (no hypothesis on the tables)"),
+        (M, "TV.C09.infl_add", "+ with non-negative costs never decreases a running value (ordered additive commutative monoid; WithTop: +inf is a non-negative cost)"),
+        (M, "TV.C09.decoded_optimal_feasible_add", "T15 for + and non-negative costs over any ordered additive commutative monoid (N, Q>=0, WithTop Q, ENNReal)"),
+        (M, "TV.C09.estimate_optimal_feasible", "T6b: end to end without PathsBelow (ordered additive commutative monoid with negation, e.g. the extended reals): non-negative cost tables of THIS call (+inf allowed) and some candidate sequence below the sentinel: hmm_inference holds candidates, hmm_cost at EVERY epoch the decoded prefix cost, the decoded sequence is minimal among all candidate sequences"),
+        (M, "TV.C09.impossible_avoided", "T18: costs in WithTop (top = impossible transition / emission, -log 0): if some candidate sequence is below the sentinel the decoded sequence uses NO impossible entry and is the cheapest of all sequences"),
+        (M, "TV.C09.argmin_first_nan", "T19: numpy.argmin on a column that holds a NaN returns the index of the FIRST NaN whatever the other entries (any type with < and ==; the model's argmin? is numpy's loop)"),
+        ("TracklibVerif.Lemmas.ViterbiSentinel", "TV.Viterbi.decoded_no_sentinel_hyp", "function style: minimal last entry below the sentinel iff some sequence is; then back-pointer path = prefix costs and optimal; else the recorded value is >= the sentinel"),
+        ("TracklibVerif.Lemmas.ViterbiSentinel", "TV.Viterbi.val_le_cost_any", "TAB_VAL[k][l] <= cost of every sequence ending in l at epoch k - monotone accumulation only, no hypothesis on the sentinel"),
     ]
     partial = []
     open_statements = [
         "IEEE-754: monotonicity of float + on finite values and the rounding of math.log are not proved (theorems are over linear orders / ordered monoids / groups / reals); the float streams are covered by the correspondence and the sampled oracle only",
-        "numpy.argmin on NaN, infinite user-supplied logs and path costs >= 1e300 (sentinel reached) are outside the hypotheses (PathsBelow is discharged for bounded entries and for non-negative likelihoods: paths_below_of_bounded, likelihood_form_nonneg; user-supplied logarithms without a bound keep it as a hypothesis)",
+        "non-finite numbers and the sentinel: numpy.argmin's NaN rule is in the model (argmin?: first NaN, else first minimum; T19) and +inf / NaN / -inf costs and costs >= 1e300 run through the correspondence (IEEE doubles: single calls, enumerated {0,-1,-inf} tables, histories); PROVED over linear orders with a monotone accumulation that never decreases a value (non-negative costs, +inf = impossible allowed: T15-T18). NOT covered by a theorem: negative costs (log-likelihoods above 0: densities) together with a reached sentinel - T3 keeps PathsBelow there (discharged for bounded entries and non-negative likelihoods: paths_below_of_bounded, likelihood_form_nonneg); NaN / cost -inf tables beyond T19 (what the forward scan does with them is the model's, compared only). When NO candidate sequence costs less than 1e300 (e.g. every sequence goes through an impossible transition) the code records hmm_cost = 1e300 + p at the last epoch, not the true (infinite) cost: outside the statement's domain as the oracle reads it (optimum below the sentinel), stated as T16 / T17",
         "the user functions S, Q, P are parameters of the model (any functions of state, observation, epoch and track - track-reading ones included: T13; raising ones included: T14, one exception kind for all of them); user functions with SIDE EFFECTS (writing the track, an iterator that is consumed, random sampling: S(track,k) called twice would differ) are outside the model - a function is a value here",
         "feature names t, timestamp as observations are outside the model (`unsupported`; x, y, z are modelled: T9); writing x, y, z through setObsAnalyticalFeature (an in-place write of the position object by the USER) is outside the model",
         "object identity: the model represents a state by its label and a position by a reference (own object / state object), with no writer of a coordinate, so 'estimate does not modify what S returned' is a property of the model by construction (T8: xyz unchanged, stXYZ a constant); that the IMPLEMENTATION modifies neither a state object nor a container is checked by the harness after every call (every candidate re-read by value, every container re-read by identity), not proved",
@@ -159,25 +190,31 @@ class P(Prop):
                 "and OBS before any write, every user function evaluated on the track of the call (they may read it) and in the order of the code "
                 "(all S, then the first column, then per epoch and candidate the transitions and the observation: the first exception of a user function "
                 "or of math.log leaves the call), first column, forward recursion with the 1e300 sentinel and strict <, "
-                "createAnalyticalFeature of the two result names (no-op when present), numpy.argmin of the last column, backward loop writing the state "
+                "createAnalyticalFeature of the two result names (no-op when present), numpy.argmin of the last column with its NaN rule (the index of the FIRST NaN "
+                "if there is one, else of the first minimum; the forward scan never takes a NaN: nan < best_val is false), backward loop writing the state "
                 "OBJECT and the recorded cost per epoch and the position in modes 3,4,5, with the partial writes left by an IndexError / ValueError on "
                 "an epoch without candidates; tracklib/core/track.py as far as this path uses it: createAnalyticalFeature, setObsAnalyticalFeature, "
                 "getObsAnalyticalFeature(s) on the name -> column table and on the names x, y, z (coordinates of the object the position is: the track's own, "
                 "or the state object bound there by a decoding in mode 3,4,5), copy(). There is no decoding mode besides Viterbi: `mode` only selects how "
                 "observations are assembled and whether positions are overwritten; `verbose` only prints (randomised by the harness, not a parameter of the model)")
-    trusted = ["numpy.argmin returns the first minimum of a list of finite numbers (modelled as a strict-< scan; exercised by the correspondence)",
+    trusted = ["numpy.argmin of a list of Python floats is numpy's double loop: the first NaN if any, else the first minimum (modelled as that loop: argmin? / argminFrom; exercised by the correspondence on columns with NaN, +-inf, ties)",
                "math.log / Lean Float.log (C library) in the likelihood streams; the theorems about likelihoods are over the reals",
                "copy.deepcopy of a track yields an independent track with equal features (the model's tracks are values)",
                "len() and integer indexing (with a Python int or a numpy.int64) of the containers S returns - tuple, numpy.ndarray, collections.deque, range - are Python's / numpy's: the model sees the items in index order"]
     rule = ("single calls: user-supplied S/Q/P read from tables, states labelled 10*epoch+index and callbacks that raise when called with a state or "
             "observation of the wrong epoch; enumerated blocks of all tables of a shape over {0,-1,-2} (logs) and {0,0.5,1} (likelihoods); "
-            "random shapes to T=8, S=5 with integer, dyadic and float values; the flag given to the constructor, to setLog or to estimate(); "
+            "random shapes to T=8, S=5 with integer, dyadic and float values; log-likelihoods with IMPOSSIBLE entries (-inf: zero-probability transitions / "
+            "emissions, the normal case in map-matching; enumerated over {0,-1,-inf} for the small shapes, random with 29% / 60% of -inf: a possible sequence "
+            "exists or not), costs that reach the 1e300 start value of the scan, NaN and +inf entries (numpy.argmin's NaN rule, inf - inf), inf / NaN handed over "
+            "as likelihoods; non-finite entries are written \"inf\" / \"-inf\" / \"nan\" in a case; the oracle applies to a call iff every cost is a number above -inf and the "
+            "enumerated optimum is below 1e300 (a predicate on the input), elsewhere the model is the only reference and a differing answer is a disagreement, never a tie; "
+            "the flag given to the constructor, to setLog or to estimate(); "
             "S returning a list, tuple, numpy array, range or user sequence. "
             "histories (props/c09sess.py): tracks of 1..8 epochs with 1..3 discrete observation features whose values repeat, 1..4 models whose P depends on "
             "(state label, observed value, epoch) and Q on (label, label, epoch) (time-inhomogeneous or stationary), candidate lists over 1..4 labels that "
             "repeat across epochs (and inside one), state objects of 8 kinds (ints, strings, tuples, unhashable lists, equal-but-distinct hashable / "
             "unhashable objects, identity objects, positions, positions of the track itself), 1..3 HMM objects, 1..4 estimate calls interleaved with setLog / setStates / "
-            "setTransitionModel / setObservationModel, edits of observations, copy() of the track, user features named hmm_inference / hmm_cost, "
+            "setTransitionModel / setObservationModel (16% of the models over log-likelihoods with -inf / NaN / +inf / -1e300 entries), edits of observations, copy() of the track, user features named hmm_inference / hmm_cost, "
             "hmm_inference / hmm_cost / idx / x / y / z used as observations, modes 0..6, all verbose levels; S returning per epoch a list, tuple, numpy array "
             "(int64 / object), user class with __len__/__getitem__, deque or range - or a generator / None / bare state (TypeError, outside the statement); "
             "state objects and containers fresh at every call, or constants of the session, or ONE container object for all epochs; flavour trackpos: the "
@@ -259,12 +296,18 @@ class P(Prop):
     def items(self, case):
         """the explicit configurations (n, P, Q, log, exact) a case stands for"""
         if case["kind"] == "exh":
-            vals = V_LOG if case["log"] else V_LIK
+            vals = self.exh_values(case)
             for i in range(case["start"], case["start"] + case["count"]):
                 Pt, Qt = config(case["n"], i, vals)
-                yield case["n"], Pt, Qt, case["log"], case["log"]
+                yield case["n"], nums(Pt), nums(Qt), case["log"], case["log"] and not case.get("vals")
         else:
-            yield case["n"], case["P"], case["Q"], case["log"], bool(case.get("exact"))
+            yield case["n"], nums(case["P"]), nums(case["Q"]), case["log"], bool(case.get("exact"))
+
+    @staticmethod
+    def exh_values(case):
+        if case.get("vals") == "inf3":
+            return V_INF
+        return V_LOG if case["log"] else V_LIK
 
     def impl(self, case):
         if case["kind"] == "sess":
@@ -328,8 +371,22 @@ class P(Prop):
     def well_posed(self, n):
         return len(n) >= 1 and all(nk >= 1 for nk in n)
 
+    @staticmethod
+    def in_domain(CP, CQ, opt):
+        """the statement speaks about likelihoods: every cost is a number above -inf (a likelihood is finite), and — the
+        documented limit of the implementation — the optimum is below the 1e300 start value of the scan. Costs of +inf
+        (IMPOSSIBLE transitions / emissions, the logarithm of a zero probability) are inside as long as some candidate
+        sequence is possible. Outside: NaN, cost -inf, no possible sequence / optimum >= 1e300 (Props T16, T17 say what the
+        code does there: candidates are assigned, the recorded cost is 1e300 + p, not the true cost)."""
+        flat = [v for row in CP for v in row] + [v for blk in CQ for row in blk for v in row]
+        if any(v != v or v == float("-inf") for v in flat):
+            return False
+        return opt is not None and opt == opt and opt < SENTINEL
+
     def check_run(self, n, CP, CQ, opt, res, exact, what):
         """property oracle for one decoding result, given the per-entry costs and the enumerated optimum"""
+        if not self.in_domain(CP, CQ, opt):
+            return None
         if "err" in res:
             return "%s: decoding raised %s (%s)" % (what, res["err"], res.get("detail", ""))
         st, co = res["states"], res["cost"]
@@ -358,6 +415,9 @@ class P(Prop):
             CQ = [[[cost_of(v, True) for v in row] for row in blk] for blk in Qt]
             opt = best_by_enumeration(n, CP, CQ)
             return self.check_run(n, CP, CQ, opt, out["log"], exact, "logs")
+        pf, qf = flatten(Pt, Qt)
+        if any(v != v or math.isinf(v) or v < 0 for v in pf + qf):
+            return None   # not likelihoods (NaN, inf, negative): outside the statement
         CP = [[cost_of(v, False) for v in row] for row in Pt]
         CQ = [[[cost_of(v, False) for v in row] for row in blk] for blk in Qt]
         opt = best_by_enumeration(n, CP, CQ)
@@ -409,6 +469,8 @@ class P(Prop):
         CP = [[cost_of(v, log_costs) for v in row] for row in Pt]
         CQ = [[[cost_of(v, log_costs) for v in row] for row in blk] for blk in Qt]
         opt = best_by_enumeration(n, CP, CQ)
+        if not self.in_domain(CP, CQ, opt):
+            return "%s: outside the statement (NaN / cost -inf / no sequence below the sentinel), where the model is the only reference: impl=%s model=%s" % (what, ri, rm)
         m = self.check_run(n, CP, CQ, opt, ri, exact, what)
         if m:
             return "%s: differs from the model (%s) and is not optimal: %s" % (what, rm["states"], m)
@@ -442,10 +504,14 @@ class P(Prop):
         if tier == "thorough":
             return ["every table assignment of every shape with T <= 3 epochs and 1..2 states per epoch (14 shapes, 5 175 210 assignments) "
                     "over log-likelihoods {0,-1,-2} (costs 0,1,2; exact)",
-                    "the same 5 175 210 assignments over likelihoods {0, 0.5, 1}, each decoded both as likelihoods and as the corresponding logarithms"]
+                    "the same 5 175 210 assignments over likelihoods {0, 0.5, 1}, each decoded both as likelihoods and as the corresponding logarithms",
+                    "every table assignment of the 13 shapes other than (2,2,2) over log-likelihoods {0,-1,-inf} (costs 0, 1, +inf: impossible transitions / "
+                    "emissions; 392 241 assignments, IEEE doubles); (2,2,2) sampled by 60 blocks of 243"]
         return ["every table assignment of every shape with T <= 3, S <= 2 that has at most %d assignments (all shapes with T <= 2; "
                 "(1,1,1) (1,1,2) (1,2,1) (2,1,1) (2,1,2)): 37 947 assignments over log-likelihoods {0,-1,-2} and again over likelihoods {0,0.5,1}; "
                 "the shapes (1,2,2) (2,2,1) (2,2,2) are sampled by 40 random blocks of 243 consecutive assignments each (enumerated completely in the thorough tier); "
+                "over log-likelihoods {0,-1,-inf} (costs 0, 1, +inf = impossible) every assignment of the shapes (1) (2) (1,1) (1,2) (2,1) (1,1,1) (1,1,2) (2,1,1) "
+                "(5 142 assignments), the other shapes sampled by 6 blocks of 243 each; "
                 "histories of calls are sampled, not enumerated" % self.QUICK_FULL]
 
     def blocks(self, n, log, total):
@@ -467,20 +533,33 @@ class P(Prop):
                 return rng.randrange(0, 9) / 8.0
             if flavour == "likfloat":
                 return rng.choice([rng.uniform(0.001, 1.0), rng.uniform(0.001, 1.0), 0.0, 1.0, rng.uniform(0, 20.0)])
+            if flavour == "loginf":      # zero-probability transitions / emissions given as logarithms: the normal case in map-matching
+                return rng.choice(["-inf", "-inf", 0, -1, -2, -0.5, -3.25])
+            if flavour == "logzero":     # mostly impossible: often NO possible sequence (sentinel cells, recorded cost 1e300 + p)
+                return rng.choice(["-inf", "-inf", "-inf", 0, -1])
+            if flavour == "loghuge":     # finite costs that reach the 1e300 start value of the scan
+                return -rng.choice([0, 1, 2.5, 1e299, 3e299, 5e299, 1e300, 2e300])
+            if flavour == "lognan":      # NaN (numpy.argmin: first NaN), -inf costs, inf - inf
+                return rng.choice([0, -1, -2, -1.5, -1, 0, "nan", "inf", "-inf", "-inf"])
+            if flavour == "likspecial":  # inf / NaN handed over as likelihoods: math.log(inf) = inf, math.log(nan) = nan
+                return rng.choice([0, 0.5, 1, 0.25, 0.5, 1, "inf", "nan"])
             raise ValueError(flavour)
         flat = [v() for _ in range(nP(n) + nQ(n))]
         return unflatten(n, flat)
 
     FLAVOURS = {"int": (True, True), "int-wide": (True, True), "dyadic": (True, True), "logfloat": (True, False),
-                "lik3": (False, False), "lik8": (False, False), "likfloat": (False, False)}
+                "lik3": (False, False), "lik8": (False, False), "likfloat": (False, False),
+                "loginf": (True, False), "logzero": (True, False), "loghuge": (True, False), "lognan": (True, False),
+                "likspecial": (False, False)}
 
-    def rand_case(self, rng, maxT, maxS, cap):
+    def rand_case(self, rng, maxT, maxS, cap, fl=None):
         while True:
             T = rng.randrange(1, maxT + 1)
             n = [rng.randrange(1, maxS + 1) for _ in range(T)]
             if math.prod(n) <= cap:
                 break
-        fl = rng.choice(["int", "int", "int-wide", "dyadic", "logfloat", "lik3", "lik8", "lik8", "likfloat"])
+        fl = fl or rng.choice(["int", "int", "int-wide", "dyadic", "logfloat", "lik3", "lik8", "lik8", "likfloat",
+                               "loginf", "loginf", "logzero", "loghuge", "lognan", "likspecial"])
         log, exact = self.FLAVOURS[fl]
         Pt, Qt = self.rand_tables(rng, n, fl)
         return {"kind": "rand", "flavour": fl, "log": log, "exact": exact, "n": n, "P": Pt, "Q": Qt,
@@ -499,6 +578,15 @@ class P(Prop):
                     for _ in range(40):
                         s = rng.randrange(0, total // BLOCK) * BLOCK
                         out.append({"kind": "exh", "log": log, "n": n, "start": s, "count": BLOCK})
+        # impossible entries (cost +inf) enumerated: every table of the small shapes over log-likelihoods {0, -1, -inf}
+        for n in shapes(3, 2):
+            total = 3 ** (nP(n) + nQ(n))
+            if total <= (200000 if thorough else 2500):
+                out += [dict(b, vals="inf3") for b in self.blocks(n, True, total)]
+            else:
+                for _ in range(60 if thorough else 6):
+                    s = rng.randrange(0, total // BLOCK) * BLOCK
+                    out.append({"kind": "exh", "log": True, "vals": "inf3", "n": n, "start": s, "count": BLOCK})
         # an epoch without candidates / no epoch at all (outside the statement; error kinds are compared)
         for n in ([], [0], [1, 0], [0, 1], [2, 0, 1], [1, 2, 0], [0, 0], [2, 1, 0, 2]):
             for fl in ("int", "lik3"):
@@ -536,6 +624,10 @@ class P(Prop):
                         out.append({"kind": "exh", "log": log, "n": n, "start": rng.randrange(0, total // BLOCK) * BLOCK, "count": BLOCK})
         for _ in range(10000):
             out.append(self.rand_case(rng, 8, 5, 3000))
+        for n in shapes(3, 2):
+            total = 3 ** (nP(n) + nQ(n))
+            if total <= 20000:
+                out += [dict(b, vals="inf3") for b in self.blocks(n, True, total)]
         for _ in range(20000):
             out.append(SS.gen_session(rng))
         return out
@@ -550,7 +642,7 @@ class P(Prop):
         if case["kind"] == "sess":
             return SS.describe(case)
         n = case["n"]
-        return {"kind": case["kind"], "T": len(n), "maxS": max(n) if n else 0, "values": ("log " if case["log"] else "lik ") + case.get("flavour", "3-set"),
+        return {"kind": case["kind"], "T": len(n), "maxS": max(n) if n else 0, "values": ("log " if case["log"] else "lik ") + case.get("flavour", "3-set" + ("+inf" if case.get("vals") else "")),
                 "via": case.get("via", "ctor"), "S returns": case.get("cont", "list")}
 
     # ------------------------------------------------------------------ findings / shrinking
@@ -558,9 +650,8 @@ class P(Prop):
         return None
 
     def explicit(self, case, i):
-        vals = V_LOG if case["log"] else V_LIK
-        Pt, Qt = config(case["n"], i, vals)
-        return {"kind": "one", "log": case["log"], "exact": case["log"], "n": case["n"], "P": Pt, "Q": Qt}
+        Pt, Qt = config(case["n"], i, self.exh_values(case))
+        return {"kind": "one", "log": case["log"], "exact": case["log"] and not case.get("vals"), "n": case["n"], "P": Pt, "Q": Qt}
 
     def shrink(self, case):
         if case["kind"] == "sess":
@@ -626,7 +717,9 @@ class P(Prop):
             out.append(b)
             pf, qf = flatten(b["P"], b["Q"])
             flat = pf + qf
-            pool = sorted(set(flat)) + ([0, -1, -2, -3] if b["log"] else [0, 0.5, 1])
+            pool = sorted(set(flat), key=str) + ([0, -1, -2, -3] if b["log"] else [0, 0.5, 1])
+            if not b.get("exact") and b["log"]:
+                pool += ["-inf"]
             for _ in range(10):
                 f2 = list(flat)
                 for _ in range(rng.randrange(1, 4)):
